@@ -1,6 +1,6 @@
 (* C05Check: fault enumeration.  A case: signatures, heap, root, the Config node whose callable
    raises, and the callables the implementation invoked before it (input ids, in order). *)
-From Fiddle Require Import PyBase PySlice Sig ArgStore PyCall Heap Traverse Build.
+From Fiddle Require Import PyBase PySlice Sig ArgStore PyCall Heap Traverse Build Build_proofs.
 
 Record case := mkcase { c_env : sigenv; c_heap : heap; c_root : ref; c_target : nat;
                         c_log_before : list nat }.
@@ -8,7 +8,7 @@ Record case := mkcase { c_env : sigenv; c_heap : heap; c_root : ref; c_target : 
 Definition fail_at (k : nat) (i : nat) : option N := if Nat.eqb i k then Some 1%N else None.
 
 Definition check_case (c : case) : bool :=
-  wf_b (c_env c) (c_heap c) &&
+  wf_b (c_env c) (c_heap c) && keys_ok_b (c_heap c) &&   (* the hypotheses of the C02 theorems *)
   let '(flag, (s, res)) := build (c_env c) (fail_at (c_target c)) false (c_heap c) (c_root c) in
   negb flag &&
   match res with
